@@ -191,6 +191,8 @@ def compute_posts(ctx, key, spec=()):
         return {}
     ret_ty = body.locals[0]["t"]
     is_enum = ret_ty.get("k") == "adt" and (ret_ty["adt"] in ENUM_ADTS)
+    if ret_ty.get("k") == "bool":
+        is_enum = "bool"     # a predicate: post-conditions per truth value
     sites = {}      # discr -> [State]
     ok = True
     for bi in body.rpo:
@@ -274,6 +276,23 @@ def compute_posts(ctx, key, spec=()):
 
 def _record_site(it, S, sites, is_enum):
     v = S.read((it.L(0), ()))
+    if is_enum == "bool":
+        c = const_val(v)
+        if isinstance(c, bool):
+            c = 1 if c else 0
+        if c is None:
+            dd = S.dom(v)
+            if dd.lo != dd.hi:
+                # the value of a comparison: one site per truth value, each refined by what that truth value means
+                for val in (0, 1):
+                    S2 = S.copy()
+                    it.assume(S2, v, val)
+                    if not S2.dead:
+                        sites.setdefault(("bool", val), []).append(S2)
+                return True
+            c = dd.lo
+        sites.setdefault(("bool", c), []).append(S.copy())
+        return True
     if is_enum:
         dd = S.dom(("discr", v)) if not (isinstance(v, tuple) and v[0] == "agg") else None
         if isinstance(v, tuple) and v[0] == "agg" and isinstance(v[1], str):
@@ -317,6 +336,9 @@ def apply_posts(it, S_pre, S, t, args, R, posts, callee_body):
                     S.add_le(f[1], f[2], f[3])
                 else:
                     S.set_dom(f[1], f[2])
+        elif isinstance(d, tuple) and d[0] == "bool":
+            key = (R, d[1])
+            it.cond[key] = it.cond.get(key, []) + facts
         else:
             key = (("discr", R), d)
             it.cond[key] = it.cond.get(key, []) + facts
